@@ -63,7 +63,7 @@ fn c11_varint_readers() {
 #[derive(PartialEq, Eq, Clone, Copy)]
 pub enum RefFrame {
     NeedMore,
-    Unknown,
+    Unknown { consumed: usize },
     InvalidSid,
     TooBig,
     Wt { sid: u64, consumed: usize },
@@ -74,9 +74,6 @@ pub enum RefFrame {
 pub fn ref_frame(b: &[u8]) -> RefFrame {
     let Some((t, n1)) = ref_varint_get(b) else { return RefFrame::NeedMore };
     let known = t == 0x00 || t == 0x01 || t == 0x04 || t == 0x41 || (t >= 0x21 && (t - 0x21) % 0x1f == 0);
-    if !known {
-        return RefFrame::Unknown;
-    }
     let Some((x, n2)) = ref_varint_get(&b[n1..]) else { return RefFrame::NeedMore };
     if t == 0x41 {
         if x & 3 != 0 {
@@ -90,6 +87,10 @@ pub fn ref_frame(b: &[u8]) -> RefFrame {
     let l = x as usize;
     if b.len() - n1 - n2 < l {
         return RefFrame::NeedMore;
+    }
+    if !known {
+        // RFC 9114 §9: frames of unknown type are ignored *as a whole*: reported only once type, length and payload are consumed
+        return RefFrame::Unknown { consumed: n1 + n2 + l };
     }
     RefFrame::Plain { type_id: t, off: n1 + n2, len: l, consumed: n1 + n2 + l }
 }
@@ -117,8 +118,9 @@ fn frame_read_total<const N: usize>() {
         (Ok(None), RefFrame::NeedMore) => {
             kani::cover!(len >= 3, "need more data after type+length");
         }
-        (Err(frame::ParseError::UnknownFrame), RefFrame::Unknown) => {
-            kani::cover!(true, "unknown frame type");
+        (Err(frame::ParseError::UnknownFrame), RefFrame::Unknown { consumed: c }) => {
+            assert!(consumed == c, "unknown frame not consumed as a whole");
+            kani::cover!(c > 3, "unknown frame with payload");
         }
         (Err(frame::ParseError::InvalidSessionId), RefFrame::InvalidSid) => {
             kani::cover!(true, "invalid session id");
@@ -148,7 +150,7 @@ fn frame_read_total<const N: usize>() {
 // @h props=C11 tier=quick t=900 sub=frame
 // @fn wtransport-proto/src/frame.rs Frame::read FrameKind::parse; wtransport-proto/src/bytes.rs <&[u8] as BytesReader>::{get_varint,get_bytes}; wtransport-proto/src/ids.rs SessionId::try_from_varint
 // @bound every byte string of length 0..=12
-// @oracle independent RFC 9114 frame parser: same verdict (value / need-more / UnknownFrame / InvalidSessionId / PayloadTooBig), payload is exactly the input slice, <= 4096, consumed <= len; length > 4096 rejected before the payload is looked at; no panic/overflow reachable in /repo code
+// @oracle independent RFC 9114 frame parser: same verdict (value / need-more / UnknownFrame after the whole frame / InvalidSessionId / PayloadTooBig), payload is exactly the input slice, <= 4096, consumed <= len; length > 4096 rejected before the payload is looked at; no panic/overflow reachable in /repo code
 // @outside inputs > 12 bytes (thorough 16)
 #[kani::proof]
 #[kani::unwind(14)]
